@@ -35,14 +35,14 @@ def plan(tier, seed):
         specs.append(("exhaustive", maxlen, i, 32))
     for i in range(16):
         specs.append(("expr", i, 16))
-    n = 4000 if tier == "quick" else 60000
+    n = 40000 if tier == "quick" else 400000
     for i in range(16):
         specs.append(("random", n // 16, i))
     if tier == "thorough":
         for i in range(16):
             specs.append(("sampled67", 300000 // 16, i))
     for i in range(4):
-        specs.append(("multifile", (400 if tier == "quick" else 4000) // 4, i))
+        specs.append(("multifile", (4000 if tier == "quick" else 40000) // 4, i))
     return specs
 
 
@@ -185,11 +185,13 @@ def run_shard(ctx, spec):
         _, maxlen, idx, n = spec
         batch = []
         count = 0
-        for length in range(0, maxlen + 1):
+        for length in range(0, maxlen + 2):
             for seq in itertools.product(ALPHABET, repeat=length):
                 count += 1
                 if count % n != idx:
                     continue
+                if length == maxlen + 1 and ((count // n) + ctx.seed) % 4 != 0:
+                    continue    # one length beyond the exhaustive bound: a seed-rotated quarter
                 lines = render(seq)
                 for defs in SUBSETS:
                     batch.append({"files": [lines], "defines": defs})
@@ -202,7 +204,7 @@ def run_shard(ctx, spec):
         ctx.sample({"family": "exhaustive", "example_file": render(("#if A", "P", "#elif B", "P", "#endif")), "defines": ["B"]}, limit=1)
     elif kind == "expr":
         _, idx, n = spec
-        depth = 2 if ctx.tier == "quick" else 3
+        depth = 3
         batch = []
         rng = ctx.rng("expr/%d" % idx)
         seen = 0
